@@ -68,6 +68,46 @@ fn check(ctx: &Ctx, dev_name: &str, form: &isa::Form, vals: &[i64]) {
 /// Whole programs per device: the gate must decide every instruction on its own, whatever was
 /// assembled before it (a verdict cached per mnemonic, per segment or per build would pass the
 /// one-instruction sweep).
+/// Lines that assemble to nothing and say nothing about the device: other segments with content,
+/// directives that are accepted and ignored, definitions nobody uses, an unselected `.device`.
+/// Whatever they do internally, the selected device and its instruction set stay what they were.
+const INERT_KINDS: u64 = 17;
+
+fn inert_lines(rng: &mut Rng, k: usize, has_ram: bool, has_eeprom: bool) -> String {
+    let kind = rng.below(24);
+    inert_kind(kind, rng, k, has_ram, has_eeprom)
+}
+
+fn inert_kind(kind: u64, rng: &mut Rng, k: usize, has_ram: bool, has_eeprom: bool) -> String {
+    match kind {
+        13 => ".csegsize 10\n".to_string(),
+        14 => ".csegsize 12\n".to_string(),
+        15 => ".csegsize 14\n".to_string(),
+        16 => ".csegsize 16\n".to_string(),
+        _ => inert_kind_common(kind, rng, k, has_ram, has_eeprom),
+    }
+}
+
+fn inert_kind_common(kind: u64, rng: &mut Rng, k: usize, has_ram: bool, has_eeprom: bool) -> String {
+    match kind {
+        0 if has_ram => format!(".dseg\ndata_lbl_{}: .byte 1\n.cseg\n", k),
+        1 if has_eeprom => format!(".eseg\nee_lbl_{}: .db {}\n.cseg\n", k, k % 200),
+        0 | 1 => format!(".dseg\nd1_lbl_{}:\n.cseg\n", k),
+        2 => format!(".dseg\nd2_lbl_{}:\n.eseg\ne2_lbl_{}:\n.cseg\n", k, k),
+        3 => format!(".csegsize {}\n", rng.pick(&[10, 11, 12, 14, 16])),
+        4 => "#pragma AVRPART CORE CORE_VERSION V2E\n".to_string(),
+        5 => ".pragma partinc 0\n".to_string(),
+        6 => format!(".message \"note {}\"\n", k),
+        7 => format!(".equ inert_equ_{} = {}\n.set inert_set_{} = inert_equ_{} + 1\n", k, k, k, k),
+        8 => format!(".def inert_alias_{} = r{}\n.undef inert_alias_{}\n", k, 16 + k % 16, k),
+        9 => format!(".macro inert_mac_{}\n\tnop\n.endm\n", k),
+        10 => ".if 0\n.device ATmega2560\n.endif\n".to_string(),
+        11 => format!("#define INERT_FLAG_{}\n.ifdef INERT_FLAG_{}\n.else\n.device ATmega2560\n.endif\n", k, k),
+        12 => format!("inert_code_lbl_{}:\n", k),
+        _ => String::new(),
+    }
+}
+
 fn sequences(ctx: &Ctx, rounds: u64) {
     let table = devices::table();
     let forms = isa::forms();
@@ -97,8 +137,8 @@ fn sequences(ctx: &Ctx, rounds: u64) {
             let fi = *rng.pick(&allowed);
             let t = tuple(&forms[fi], &mut rng);
             let text = forms[fi].text(&t);
-            if rng.chance(1, 8) {
-                src.push_str(&format!(".dseg\nnoise_lbl_{}:\n.cseg\n", lines.len()));
+            if rng.chance(1, 4) {
+                src.push_str(&inert_lines(&mut rng, lines.len(), dev.ram_size >= 64, dev.eeprom_size >= 64));
             }
             src.push_str(&text);
             src.push('\n');
@@ -121,14 +161,7 @@ fn sequences(ctx: &Ctx, rounds: u64) {
             let f = &forms[*fi];
             let mut src = format!(".device {}\n", name);
             // sometimes the code follows (non-empty) data / EEPROM segments, or is split by them
-            let seg_noise = |rng: &mut Rng, k: usize| -> String {
-                match rng.below(5) {
-                    0 => format!(".dseg\ndata_lbl_{}:\n.cseg\n", k),
-                    1 => format!(".eseg\nee_lbl_{}:\n.cseg\n", k),
-                    2 => format!(".dseg\nd2_lbl_{}:\n.eseg\ne2_lbl_{}:\n.cseg\n", k, k),
-                    _ => String::new(),
-                }
-            };
+            let seg_noise = |rng: &mut Rng, k: usize| inert_lines(rng, k, dev.ram_size >= 16, dev.eeprom_size >= 16);
             src.push_str(&seg_noise(&mut rng, 0));
             let siblings: Vec<usize> = allowed.iter().cloned().filter(|a| forms[*a].mn == f.mn).collect();
             let k = 1 + rng.usize(6);
@@ -159,6 +192,25 @@ fn sequences(ctx: &Ctx, rounds: u64) {
                     format!("`{}` assembled on {} (which has {}) when it followed allowed instructions{}", f.text(&t), name, flag, if siblings.is_empty() { "" } else { " of the same mnemonic" }),
                     json!({"source": src, "device": name, "sequence": true, "must_build": false}),
                 );
+            }
+        }
+        // (c) every kind of inert line, placed between `.device` and a forbidden form
+        if !forbidden.is_empty() && *round == 0 {
+            for kind in 0..INERT_KINDS {
+                let f = &forms[*rng.pick(&forbidden)];
+                let t = tuple(f, &mut rng);
+                let src = format!(".device {}\n{}{}\n", name, inert_kind(kind, &mut rng, 0, dev.ram_size >= 16, dev.eeprom_size >= 16), f.text(&t));
+                let out = fw::build_str(&src);
+                ctx.eval(1);
+                ctx.count("forbidden_form_behind_each_inert_line", 1);
+                if !out.is_err() {
+                    let flag = devices::forbidding_flag(dev, &f.name).map(|x| format!("{:?}", x)).unwrap_or_default();
+                    ctx.violation(
+                        format!("gate/{}/{}/accepted-behind-inert-line", flag, f.name),
+                        format!("`{}` assembled on {} (which has {}) behind `{}`", f.text(&t), name, flag, src.lines().nth(1).unwrap_or("")),
+                        json!({"source": src, "device": name, "sequence": true, "must_build": false}),
+                    );
+                }
             }
         }
     });
